@@ -19,6 +19,8 @@ int main(int argc, char** argv)
 {
     const char* td = getenv("VERIF_TMP");
     g_tmpdir = td ? td : "/tmp";
+    // descriptors 0..2 are taken, as in any ordinary process (the trace file must not end up on descriptor 0: histories rotate to it)
+    while (true) { int f = ::open("/dev/null", O_RDWR); if (f < 0 || f > 2) { if (f > 2) ::close(f); break; } }
     if (argc == 6 && std::string(argv[1]) == "run") {
         unsigned shard = atoi(argv[3]), nshards = atoi(argv[4]);
         vh::trace().open(argv[5]);
